@@ -319,13 +319,15 @@ PROPS = {
             'imported-vs-local partition: the emit filters keep exactly the records without import back-pointer (predicates lifted and verified)',
             'data segments: parse body -- the record of THIS segment gets exactly the decoded bytes, mode, memory (through the parse-time map) and offset constant, every other record is untouched, an active segment is registered on its memory and on no other; emit body -- one entry with the same mode, bytes, memory (emit-time map) and offset constant',
             'element segments, emit side: one entry per segment with the same mode, table, offset constant, item-list kind and items mapped one by one through the emit-time maps',
+            'element segments, parse side (outer loop body + both item-loop bodies, real text): one record per segment with the next id, pushed once; declared / passive / active kept; table (index defaulting to 0) and offset constant through the parse-time maps; function-index lists and expression lists kept as such, item by item; an active segment is registered on its table and on no other',
+            'reserve_data body: one empty passive placeholder per reserved index',
         ],
         'unclaimed': [
-            'element segments parse side (parse_elements: two nested item loops), start function, function signatures / type section: not under contract yet; bounded stand-in (entities battery)',
+            'start function, function signatures / type section: not under contract yet; bounded stand-in (entities battery)',
             'the iteration protocol of section readers and arena iterators (A-iter)',
         ],
         'standins': [
-            {'fn': 'parse_elements / start / types and the composition of all loop bodies (whole module structure)', 'argv': ['entities'],
+            {'fn': 'start / types and the composition of all loop bodies (whole module structure)', 'argv': ['entities'],
              'bound': '19 hand-written modules covering imported/local x 32/64-bit x shared x every element/data segment encoding, start functions that move; canonical structure (indices replaced by identity labels) compared before/after the round trip',
              'why': 'nested iterator loops of parse_elements; A-iter composition'},
         ],
